@@ -255,6 +255,7 @@ class C11(Profile):
         cfg["max_photons"] = rng.choice([1, 2, 2, 3])
         cfg["max_params"] = rng.randint(0, 4)
         cfg["p_poison"] = rng.choice([0.05, 0.1, 0.2])
+        cfg["source_sweep"] = True
         for k in ("sampler_user", "quick_user", "analyzer_user"):
             pass
         # at least one consumer kind is always on
